@@ -309,7 +309,7 @@ pixman_indexed_t *rq_make_palette (pixman_format_code_t f, uint64_t seed)
     vf_rng r; vf_rng_seed (&r, seed, 0x9a1e, 7);
     int depth = PIXMAN_FORMAT_BPP (f) == 8 && PIXMAN_FORMAT_DEPTH (f) ? PIXMAN_FORMAT_DEPTH (f) : PIXMAN_FORMAT_BPP (f), n = 1 << depth;
     int gray = PIXMAN_FORMAT_TYPE (f) == PIXMAN_TYPE_GRAY;
-    static int16_t owner[32768];
+    static __thread int16_t owner[32768];       /* per thread: C16 builds requests in several threads */
     for (int i = 0; i < 32768; i++) owner[i] = -1;
     p->color = !gray;
     for (int i = 0; i < n; i++) {
